@@ -91,7 +91,7 @@ class C19(Check):
             'rxsci.framing.line (current working tree)', 'orjson, zlib, zstandard, codecs', 'RxPY core']
     stubs = ['simulated disk / file objects (open_obj seam, short reads)', 'final subscriber']
     assumptions = ['items are dicts (a top-level null is dropped by design); strings contain no lone surrogates; ints fit 64 bits']
-    probe_names = ('two_files_written_concurrently', 'read_back_inside_completion', 'encoding:utf-16', 'encoding:latin-1', 'object>64KiB', 'compression:None', 'compression:gzip', 'compression:zstd', 'short_reads', 'one_byte_reads', 'file>64KiB', 'multibyte_chars',
+    probe_names = ('path_holds_an_earlier_dump', 'file_name_suggests_other_compression', 'two_files_written_concurrently', 'read_back_inside_completion', 'encoding:utf-16', 'encoding:latin-1', 'object>64KiB', 'compression:None', 'compression:gzip', 'compression:zstd', 'short_reads', 'one_byte_reads', 'file>64KiB', 'multibyte_chars',
                    'newline_in_string', 'empty_file', 'path:mem')
     quick_cap = 100000
 
@@ -112,6 +112,10 @@ class C19(Check):
         case = {'items': items, 'compression': rng.choice([None, 'gzip', 'zstd']), 'path': 'file' if rng.random() < 0.8 else 'mem',
                 'cutseed': rng.randrange(1 << 30)}
         case['ack'] = rng.random() < 0.4
+        if case['path'] == 'file' and rng.random() < 0.25:
+            case['stale'] = True
+        if rng.random() < 0.25:
+            case['fname'] = rng.choice(['export.json.gz', 'export.json.zst', 'DATA.GZ', 'x.zstd', 'lines.gzip', 'a.b.gz.json'])
         if case['path'] == 'file' and not case['ack'] and rng.random() < 0.25:
             # a second file written at the same time (one source split into two files): items interleaved by the seeded order
             case['twin'] = True
@@ -140,6 +144,8 @@ class C19(Check):
             for i in case['items']:
                 orjson.dumps(i)
                 expand(i) if '$big' in repr(i) else None
+            if not isinstance(case.get('fname', 'sim.json'), str) or not case.get('fname', 'sim.json') or '/' in case.get('fname', ''):
+                return False
             return all(isinstance(r, int) and r >= 1 for r in case.get('reads') or ())
         except Exception:
             return False
@@ -170,12 +176,25 @@ class C19(Check):
             if case.get('encoding', 'utf-8') != 'utf-8':
                 p['encoding:%s' % case['encoding']] += 1
             disk = SimDisk(short_reads=case.get('reads') or ())
+            # the file name is the caller's business: it need not match the compression setting ('export.json.gz' written without compression)
+            fname = case.get('fname', 'sim.json')
+            fname2 = 'second-' + fname
+            if fname != 'sim.json':
+                p['file_name_suggests_other_compression'] += 1
+            if case.get('stale'):
+                # the path already holds an earlier, longer dump (an output path reused by a second run)
+                _, t0 = collect(rx.from_([{'old': n, 'pad': 'x' * 40} for n in range(len(items) + 3)]).pipe(
+                    rsjson.dump_to_file(fname, compression=comp, encoding=case.get('encoding', 'utf-8'), open_obj=disk.open)))
+                if t0 is None or t0[0] != 'completed' or not disk.files.get(fname):
+                    out.add('dump_to_file-failed', 'json', {'terminal': repr(t0), 'step': 'earlier dump', 'compression': comp})
+                    return out
+                p['path_holds_an_earlier_dump'] += 1
             enc = case.get('encoding', 'utf-8')
             if case.get('ack'):
                 # hot source, and the file is read back from INSIDE the completion callback of the writer
                 t, got, term, still_open = dump_then_load_on_completion(
-                    items, rsjson.dump_to_file('sim.json', compression=comp, encoding=enc, open_obj=disk.open),
-                    lambda: rsjson.load_from_file('sim.json', compression=comp, encoding=enc, open_obj=disk.open), disk)
+                    items, rsjson.dump_to_file(fname, compression=comp, encoding=enc, open_obj=disk.open),
+                    lambda: rsjson.load_from_file(fname, compression=comp, encoding=enc, open_obj=disk.open), disk)
                 p['read_back_inside_completion'] += 1
                 if t is not None and t[0] == 'completed' and still_open:
                     out.add('file-open-at-completion', 'json', {'open_files': still_open, 'compression': comp})
@@ -185,26 +204,26 @@ class C19(Check):
                 items2 = [{'twin': n, 'of': it.get('id')} for n, it in enumerate(reversed(items))] + [{'twin': 'tail'}]
                 order = merge_order(random.Random(case['cutseed']), [len(items), len(items2)])
                 t, t2 = dump_concurrently([items, items2],
-                                          [rsjson.dump_to_file('sim.json', compression=comp, encoding=enc, open_obj=disk.open),
-                                           rsjson.dump_to_file('sim2.json', compression=comp, encoding=enc, open_obj=disk.open)], order)
+                                          [rsjson.dump_to_file(fname, compression=comp, encoding=enc, open_obj=disk.open),
+                                           rsjson.dump_to_file(fname2, compression=comp, encoding=enc, open_obj=disk.open)], order)
                 got, term = (None, None)
                 if t2 is None or t2[0] != 'completed':
                     out.add('dump_to_file-failed', 'json', {'terminal': repr(t2), 'compression': comp, 'file': 'second of two'})
                     return out
-                got2, term2 = collect(rsjson.load_from_file('sim2.json', compression=comp, encoding=enc, open_obj=disk.open))
+                got2, term2 = collect(rsjson.load_from_file(fname2, compression=comp, encoding=enc, open_obj=disk.open))
                 if term2 is None or term2[0] != 'completed' or len(got2) != len(items2) or not all(deep_eq(g, e) for g, e in zip(got2, items2)):
                     out.add('concurrent-file', 'json', {'terminal': repr(term2), 'compression': comp, 'expected': repr(items2)[:300],
                                                         'got': repr(got2)[:300]})
                     return out
             else:
-                _, t = collect(rx.from_(items).pipe(rsjson.dump_to_file('sim.json', compression=comp, encoding=enc, open_obj=disk.open)))
+                _, t = collect(rx.from_(items).pipe(rsjson.dump_to_file(fname, compression=comp, encoding=enc, open_obj=disk.open)))
                 got, term = (None, None)
             if t is None or t[0] != 'completed':
                 out.add('dump_to_file-failed', 'json', {'terminal': repr(t), 'compression': comp})
                 return out
             if not case.get('ack'):
-                got, term = collect(rsjson.load_from_file('sim.json', compression=comp, encoding=enc, open_obj=disk.open))
-            size = len(disk.files.get('sim.json', b''))
+                got, term = collect(rsjson.load_from_file(fname, compression=comp, encoding=enc, open_obj=disk.open))
+            size = len(disk.files.get(fname, b''))
             short = disk.short
             steps = disk.reads
             out.faults['short_read'] += disk.short
